@@ -976,6 +976,16 @@ class PseudoNetCDFFile(PseudoNetCDFSelfReg, object):
         from symtable import symtable
         symtbl = symtable(expr, '<pncexpr>', 'exec')
         symbols = symtbl.get_symbols()
+        # netCDF4 variables do not support arithmetic; expose the ones used
+        # by the expression as in-memory variables
+        ncvkeys = [s.get_name() for s in symbols
+                   if isinstance(vardict.get(s.get_name()), NetCDFVariable)]
+        if len(ncvkeys) > 0:
+            memf = PseudoNetCDFFile()
+            for dk, dv in self.dimensions.items():
+                memf.copyDimension(dv, key=dk)
+            for key in ncvkeys:
+                vardict[key] = memf.copyVariable(vardict[key], key=key)
         for symbol in symbols:
             key = symbol.get_name()
             if key in vardict:
